@@ -1965,6 +1965,29 @@ pub fn run(out: &mut Out, seed: u64, thorough: bool, replay: Option<&str>) {
         d.out.mark_distinct(fnv(format!("N{round}").as_bytes()));
         d.s.shutdown();
     }
+    // ---- N2 (C13): every bootstrap server is far away — its answers take 700 ms, longer than the initial
+    //          request timeout.  The first attempts time out; the late answers teach the node the round trip
+    //          time, and a later attempt succeeds: the node joins
+    for round in 0..(if thorough { 3 } else { 1 }) {
+        t0 += 10_000_000_000_000;
+        let mut net = VNet::new(&mut rng, 1 + 2 * round, true);
+        for p in net.peers.iter_mut() {
+            p.extra_delay = 700 * MS + round as u64 * 40 * MS;
+        }
+        let boot: Vec<SocketAddrV4> = net.peers.iter().take(2).map(|p| p.addr).collect();
+        let mut d = Driver::new(out, rng.next(), net);
+        d.begin("c", &boot, None, rng.next() % 1_000_000 + 1, t0);
+        d.run_for(40 * SEC, 10 * MS);
+        d.run("snap".into());
+        let size = d.s.last_snapshot.as_ref().map(|sn| sn.routing_table.len()).unwrap_or(0);
+        if size == 0 {
+            d.out.violation("C13", "live-bootstrap-not-joined", "every bootstrap server answers (700 ms round trip) but after 40 s the routing table is still empty: the node never adapts its request timeout to the late answers".into());
+        }
+        d.finish();
+        d.out.mark_distinct(fnv(format!("N2{round}").as_bytes()));
+        d.out.count("far-away-bootstrap");
+        d.s.shutdown();
+    }
     // ---- C4: get_mutable joins a running lookup of ANOTHER kind on the same 20 bytes (lookups are keyed
     //          by target), and the responders answer that lookup with a mutable item signed by their own
     //          key (C02): nothing of that may reach the get_mutable caller
